@@ -218,6 +218,15 @@ func c16Job(t *testing.T, raw json.RawMessage) (any, error) {
 				ut := uType{Name: "prim/" + k.name, T: k.t}
 				for _, first := range []byte{0x02, 0x01, 0x03, 0x0a, 0x80} {
 					decodeExp(st, ut, "", []byte{first, 0x00}, a.Slow, "zero-length-primitive")
+					// ... followed by octets that do not belong to it (the declared length is the extent of the element)
+					decodeExp(st, ut, "", []byte{first, 0x00, 0x05}, a.Slow, "zero-length-primitive")
+					decodeExp(st, ut, "", []byte{first, 0x00, 0x00, 0xff}, a.Slow, "zero-length-primitive")
+				}
+				if k.name != "bool" && k.name != "bits" {
+					// INTEGER / ENUMERATED contents that do not fit 64 bits
+					for _, first := range []byte{0x02, 0x0a} {
+						decodeExp(st, ut, "", []byte{first, 0x09, 0x01, 0, 0, 0, 0, 0, 0, 0, 0}, a.Slow, "integer-beyond-64-bits")
+					}
 				}
 				gt := reflect.StructOf([]reflect.StructField{mkField("A", k, 0, false)})
 				decodeExp(st, uType{Name: "gen1/" + k.name, T: gt}, "", []byte{0x30, 0x02, 0x80, 0x00}, a.Slow, "zero-length-primitive")
@@ -292,6 +301,21 @@ var lenSubst = [][]byte{{0}, {1}, {0x7f}, {0x80}, {0x81, 0xff}, {0x82, 0xff, 0xf
 	{0x88, 0x80, 0, 0, 0, 0, 0, 0, 0}, {0x88, 0xff, 0xff, 0xff, 0xff, 0xff, 0xff, 0xff, 0xf6}, {0x88, 0x7f, 0xff, 0xff, 0xff, 0xff, 0xff, 0xff, 0xff}, {0xff}}
 
 func mutateAndDecode(st *c16Stats, ut uType, param string, enc []byte, slow, deep bool) {
+	// octets after the element: its declared length is its extent, what follows must not change the value
+	if base, berr, bpan := unmarshalSafe(enc, ut.T, param); berr == nil && bpan == "" {
+		for _, suf := range [][]byte{{0x00}, {0x05}, {0xff, 0xff}} {
+			st.Decodes++
+			v2, err2, pan2 := unmarshalSafe(append(append([]byte(nil), enc...), suf...), ut.T, param)
+			switch {
+			case pan2 != "":
+				st.find("decoder-panic/"+panicClass(pan2), fmt.Sprintf("decoding %s followed by %x into %s (params %q) panicked: %s", hexHead(enc, 24), suf, ut.Name, param, oneLine(pan2, 120)))
+			case err2 == nil && !normEqual(base, v2):
+				st.find("octets-beyond-the-declared-length-change-the-value", fmt.Sprintf("the valid encoding %s of %s (params %q) followed by the octets %x decodes without error to another value: %s", hexHead(enc, 24), ut.Name, param, suf, diffValues(base, v2, "")))
+			case err2 != nil:
+				st.Errors++
+			}
+		}
+	}
 	// truncations
 	for n := 0; n < len(enc); n++ {
 		if len(enc) > 200 && n > 64 && n < len(enc)-16 && !deep {
